@@ -163,6 +163,83 @@ fn build_rb(sorted: &[u32], ents: &mut Vec<Ent>, depth: u32, full_depth: u32) ->
     id
 }
 
+/// The same by insertion into a left-leaning red-black tree (Sedgewick's 2-3 variant) in a
+/// random order: a valid red-black tree with red INTERNAL nodes and an irregular shape.
+/// Keys are the positions in `sorted`.
+fn build_rb_by_insertion(rng: &mut Rng, sorted: &[u32], ents: &mut Vec<Ent>) -> u32 {
+    const NIL: usize = usize::MAX;
+    let n = sorted.len();
+    if n == 0 {
+        return NOSTREAM;
+    }
+    let mut left = vec![NIL; n];
+    let mut right = vec![NIL; n];
+    let mut red = vec![false; n];
+    fn is_red(red: &[bool], h: usize) -> bool {
+        h != usize::MAX && red[h]
+    }
+    fn rot_left(left: &mut [usize], right: &mut [usize], red: &mut [bool], h: usize) -> usize {
+        let x = right[h];
+        right[h] = left[x];
+        left[x] = h;
+        red[x] = red[h];
+        red[h] = true;
+        x
+    }
+    fn rot_right(left: &mut [usize], right: &mut [usize], red: &mut [bool], h: usize) -> usize {
+        let x = left[h];
+        left[h] = right[x];
+        right[x] = h;
+        red[x] = red[h];
+        red[h] = true;
+        x
+    }
+    fn insert(left: &mut [usize], right: &mut [usize], red: &mut [bool], h: usize, k: usize) -> usize {
+        if h == usize::MAX {
+            red[k] = true;
+            return k;
+        }
+        if k < h {
+            let l = insert(left, right, red, left[h], k);
+            left[h] = l;
+        } else {
+            let r = insert(left, right, red, right[h], k);
+            right[h] = r;
+        }
+        let mut h = h;
+        if is_red(red, right[h]) && !is_red(red, left[h]) {
+            h = rot_left(left, right, red, h);
+        }
+        if is_red(red, left[h]) && left[h] != usize::MAX && is_red(red, left[left[h]]) {
+            h = rot_right(left, right, red, h);
+        }
+        if is_red(red, left[h]) && is_red(red, right[h]) {
+            red[h] = true;
+            let (l, r) = (left[h], right[h]);
+            red[l] = false;
+            red[r] = false;
+        }
+        h
+    }
+    let mut order: Vec<usize> = (0..n).collect();
+    for i in (1..n).rev() {
+        let j = rng.below(i as u64 + 1) as usize;
+        order.swap(i, j);
+    }
+    let mut root = NIL;
+    for k in order {
+        root = insert(&mut left, &mut right, &mut red, root, k);
+        red[root] = false;
+    }
+    for k in 0..n {
+        let e = &mut ents[sorted[k] as usize];
+        e.left = if left[k] == NIL { NOSTREAM } else { sorted[left[k]] };
+        e.right = if right[k] == NIL { NOSTREAM } else { sorted[right[k]] };
+        e.color = if red[k] { 0 } else { 1 };
+    }
+    sorted[root]
+}
+
 pub struct Synth {
     pub bytes: Vec<u8>,
     pub desc: String,
@@ -247,7 +324,11 @@ pub fn synthesize_with(rng: &mut Rng, v: Version, root_kids: &[Node], root_meta:
         while (1usize << (full + 1)) - 1 <= n {
             full += 1;
         }
-        build_rb(&sorted, ents, 0, full)
+        if rng.chance(1, 2) {
+            build_rb_by_insertion(rng, &sorted, ents)
+        } else {
+            build_rb(&sorted, ents, 0, full)
+        }
     }
     let root_child = place(rng, root_kids, &mut ents, &mut free_slots, sl, &mut big, &mut small, &mut datas);
     // ---- mini stream ----
@@ -570,7 +651,52 @@ pub fn run(seed: u64, count: usize, out: &str) -> Report {
                 tr.exec(&mut live, &Op::HWrite(1, vec![7u8; 4500]));
                 tr.exec(&mut live, &Op::HDrop(1));
                 tr.exec(&mut live, &Op::Walk);
-                tr.exec(&mut live, &Op::Reopen(true));
+                // removals one at a time out of the foreign (balanced, coloured) sibling trees,
+                // each followed by a strict reopening of the bytes
+                let mut removed = 0;
+                for (p, is_stream) in paths.iter().skip(1) {
+                    if removed >= 8 || live.dead {
+                        break;
+                    }
+                    if !*is_stream || !live.comp.as_ref().unwrap().is_stream(p) {
+                        continue;
+                    }
+                    if rng.chance(1, 2) {
+                        continue;
+                    }
+                    removed += 1;
+                    if tr.exec(&mut live, &Op::RemoveStream(p.clone())) != "ok" {
+                        continue;
+                    }
+                    let before = std::panic::catch_unwind(std::panic::AssertUnwindSafe(|| live.dump())).ok();
+                    let r = tr.exec(&mut live, &Op::Reopen(true));
+                    if live.dead {
+                        break;
+                    }
+                    if r != "ok" {
+                        rep.fail(format!("layouts seed={} case={} [{}]: after removing {} the bytes no longer reopen in strict mode: {}", seed, i, sy.desc, p, r));
+                        break;
+                    }
+                    let after = std::panic::catch_unwind(std::panic::AssertUnwindSafe(|| live.dump())).ok();
+                    if after != before {
+                        rep.fail(format!("layouts seed={} case={} [{}]: after removing {} the reopened file shows different content", seed, i, sy.desc, p));
+                        break;
+                    }
+                }
+                // "mutating such a file afterwards keeps C01-C03": the bytes must reopen strictly
+                // and show what the live object showed
+                let before = if live.dead { None } else { std::panic::catch_unwind(std::panic::AssertUnwindSafe(|| live.dump())).ok() };
+                let r = tr.exec(&mut live, &Op::Reopen(true));
+                if !live.dead {
+                    if r != "ok" {
+                        rep.fail(format!("layouts seed={} case={} [{}]: after a short mutation history the bytes no longer reopen in strict mode: {}", seed, i, sy.desc, r));
+                    } else if let Some(b) = before {
+                        let after = std::panic::catch_unwind(std::panic::AssertUnwindSafe(|| live.dump())).ok();
+                        if after.as_ref() != Some(&b) {
+                            rep.fail(format!("layouts seed={} case={} [{}]: after a short mutation history the reopened file shows different content than the live object", seed, i, sy.desc));
+                        }
+                    }
+                }
                 tr.exec(&mut live, &Op::Walk);
                 if live.dead {
                     rep.fail(format!("layouts seed={} case={} [{}]: panic while mutating a foreign layout", seed, i, sy.desc));
